@@ -89,7 +89,7 @@ def main():
         'setup_cmd': './setup.sh',
         'hooks': {
             'guard': 'DEPCCG_VERIF',
-            'enable': 'checks compile depccg/parsing.h from the working tree with -DHAVE_POP_HOOK semantics available and set DEPCCG_VERIF=1 in their own process; nothing is enabled when the variable is unset',
+            'enable': 'checks compile depccg/parsing.h from the working tree behind a generated shim; when the header declares parsing::verif_pop_hook the shim exports a setter, and a check that observes agenda pops installs a callback and sets DEPCCG_VERIF=1 in its own process for the duration of that parse only; with the variable unset (or no callback installed, as in any normal build) nothing happens',
             'baseline_off_cmd': 'cd /repo && env -u DEPCCG_VERIF /venv/bin/python -m pytest -ra -q -p no:cacheprovider --continue-on-collection-errors',
             'source_commits': [],
             'add_only': True,
